@@ -195,8 +195,9 @@ SStep(e) ==
     [] e.op = "abs_diff_eq4" ->
          LET x == S4(e.x)  y == S4(e.y)
              vx == S4Vals(x)  vy == S4Vals(y)
-             judged == AbsDiffEq4Judged(vx, vy) IN
-         \* small operands are far inside the range of doubles: no panic, and the answer is determined outside the band
+             \* coefficients of at most 4 that are not below the range of doubles either (abs_diff_eq unwraps the conversion)
+             judged == AbsDiffEq4Judged(vx, vy) /\ \A i \in 1..4 : CInRange(vx[i]) /\ CInRange(vy[i]) IN
+         \* such operands convert without error: no panic, and the answer is determined outside the band
          /\ viol' = (IF judged THEN V(e.res = "ok", "NoPanic", e.op) \o V(e.res = "ok" => AbsDiffEq4OK(vx, vy, e.ret, e.rev), "AbsDiffEq4OK", e.op) ELSE <<>>) \o viol
          /\ stats' = [stats EXCEPT !.sops = @ + 1, !.adeq4 = @ + 1, !.adeq4_judged = @ + B2I(judged), !.adeq4_true = @ + B2I(e.res = "ok" /\ e.ret),
                                    !.nontrivial = @ + B2I(judged)]
